@@ -39,7 +39,7 @@ func NewCapturer(opt quicworld.Options) (*Capturer, error) {
 	}
 	c := &Capturer{W: w, sv: -1}
 	w.Router.KeepLog = false
-	w.Router.OnEmit = func(d *wiretap.DatagramInfo) *simworld.Action {
+	w.Router.SetOnEmit(func(d *wiretap.DatagramInfo) *simworld.Action {
 		if d.Dir == wiretap.C2S {
 			c.mu.Lock()
 			c.dg = append(c.dg, append([]byte(nil), d.Raw...))
@@ -47,8 +47,8 @@ func NewCapturer(opt quicworld.Options) (*Capturer, error) {
 			c.mu.Unlock()
 		}
 		return nil
-	}
-	w.Router.OnDeliver = func(d *wiretap.DatagramInfo, _ wiretap.Mod) {
+	})
+	w.Router.SetOnDeliver(func(d *wiretap.DatagramInfo, _ wiretap.Mod) {
 		if d.Dir == wiretap.S2C {
 			c.mu.Lock()
 			if c.sv < 0 {
@@ -56,7 +56,7 @@ func NewCapturer(opt quicworld.Options) (*Capturer, error) {
 			}
 			c.mu.Unlock()
 		}
-	}
+	})
 	return c, nil
 }
 
